@@ -638,7 +638,11 @@ def rules(tier):
     from . import carry, c04
     from . import extrema
     from . import precision
-    return [rule_precpaths, rule_covcentred, rule_mixweights, rule_refresh, rule_err, rule_lse, rule_posterior, rule_memorder, rule_incumbent, rule_orient, rule_reg,
+    from . import inplace, blockmean
+    gmm = lambda f: f["d"]["krate"] == "linfa_clustering" and ("GaussianMixture" in (f["d"].get("self_adt") or "") or "gaussian_mixture" in f["d"]["path"])
+    return [inplace.make_rule("R-C10-overwrite", lambda f: f["d"]["krate"] == "linfa_clustering" and "GaussianMixture" in (f["d"].get("self_adt") or ""), 1, "the Gaussian mixture model"),
+            blockmean.make_offset_rule("R-C10-blockoffset", gmm, "the Gaussian mixture code"),
+            rule_precpaths, rule_covcentred, rule_mixweights, rule_refresh, rule_err, rule_lse, rule_posterior, rule_memorder, rule_incumbent, rule_orient, rule_reg,
             carry.make_clone_rule("R-C10-clone", {"linfa_clustering"}, 10), carry.make_setter_rule("R-C10-override", {"linfa_clustering"}, 10), c04.make_carry_rule("R-C10-carry", {"GmmParams"}, 6),
             extrema.make_rule("R-C10-extrema", "the row maximum the mixture's log-sum-exp is shifted by is a real maximum: the fold starts from -infinity / min_value or from data", lambda f: f["d"]["krate"] == "linfa_clustering" and "gaussian_mixture" in f["d"]["path"] + " " + (f["d"].get("self_adt") or "") or (f["d"]["krate"] == "linfa_clustering" and "GaussianMixture" in (f["d"].get("self_adt") or "")), 1, "the max fold of the log-sum-exp shift in GaussianMixtureModel"),
             precision.make_rule("R-C10-precision", lambda f: f["d"]["krate"] == "linfa_clustering" and any(x in f["d"]["path"] + " " + (f["d"].get("self_adt") or "") for x in ("gaussian_mixture", "GaussianMixture", "Gmm")), 35, "linfa-clustering gaussian_mixture"),
